@@ -35,8 +35,8 @@ ID = "C10"
 LEVEL = "exploration"
 HANG_IS_VIOLATION = True
 TIERS = {
-    "quick": {"runs": 1500, "wall": 70, "run_timeout": 120, "shrink_s": 40, "p_gamma": 0.15},
-    "thorough": {"runs": 60000, "wall": 1100, "run_timeout": 240, "shrink_s": 120, "p_gamma": 0.2},
+    "quick": {"runs": 1500, "wall": 70, "run_timeout": 240, "shrink_s": 40, "p_gamma": 0.15},
+    "thorough": {"runs": 60000, "wall": 1100, "run_timeout": 400, "shrink_s": 120, "p_gamma": 0.2},
 }
 RULE = ("case = seeded continuum (2..4 annotators, <= 8 units each; overlap-heavy families nested / staircase / long-spanning plus "
         "the general ones, empty annotators) x dissimilarity x EVERY window size 1..ceil(units/annotators)+1, each call under the "
@@ -112,7 +112,8 @@ def monitored_fast(continuum, dissim, w):
     try:
         try:
             out = common.sim_call(lambda: continuum.get_fast_alignment(dissim, w),
-                                  {"workers": 1, "policy": {"policy": "seq"}, "trace_lines": True}, max_steps=STEP_BUDGET)
+                                  {"workers": 1, "policy": {"policy": "seq"}, "trace_lines": True}, max_steps=STEP_BUDGET,
+                                  retry_coarse=False)
         except _sched.StepBudget:
             return None, "step_budget", state["iters"], None
     finally:
